@@ -75,6 +75,14 @@ CHECKS['C07'] = (
     'categories, labels, heads, attributes, offsets, conll heads, numbering)',
     'Grammar-licensed and arbitrary trees, hostile tokens within each format\'s representable domain, batches x n-best, both languages.',
     'Trusts vlib/codecs.py and vlib/fmtcheck.py as statements of the formats.', '§5 C07')
+CHECKS['C08'] = (
+    'real to_string(auto) -> real read_auto -> structural comparison + real auto_of reprint (string equality) + conll fragment concatenation',
+    'Licensed and arbitrary trees, both head directions, tokens that are or contain brackets/angle characters, both languages.',
+    'Token domain as stated in DESIGN C08 (CCGbank repair patterns excluded).', '§5 C08')
+CHECKS['C20'] = (
+    'real to_string(ptb) -> real read_ptb and real ja_of -> real read_ccgbank (plain + injected bank annotations) -> structural comparison; '
+    'truncated / closer-deleted PTB lines must raise',
+    'Unary and binary nodes, bracket tokens, ~18000 incomplete lines per quick run.', 'Token domains per DESIGN C20.', '§5 C20')
 
 NOT_YET = {}
 
